@@ -81,7 +81,7 @@ class ValidateAttributesOverrides(RelativeHandlerInterface):
                 if cls.overrides(attr, base_attr):
                     cls.validate_override(target, attr, base_attr)
                 else:
-                    cls.resolve_conflict(attr, base_attr)
+                    cls.resolve_conflict(target, attr, base_attr)
             elif attr.is_prohibited:
                 cls.remove_attribute(target, attr)
 
@@ -188,14 +188,19 @@ class ValidateAttributesOverrides(RelativeHandlerInterface):
         ClassUtils.clean_inner_classes(target)
 
     @classmethod
-    def resolve_conflict(cls, child_attr: Attr, parent_attr: Attr):
+    def resolve_conflict(cls, target: Class, child_attr: Attr, parent_attr: Attr):
         """Rename the child or parent attr.
 
         Args:
+            target: The child class instance
             child_attr: The child attr instance
             parent_attr: The  parent attr instance
         """
+        name = child_attr.name
         ClassUtils.rename_attribute_by_preference(child_attr, parent_attr)
+        if child_attr.name != name:
+            reserved = {x.slug for x in target.attrs if x is not child_attr}
+            child_attr.name = ClassUtils.unique_name(child_attr.name, reserved)
 
 
 def _bool_eq(a: bool | None, b: bool | None) -> bool:
